@@ -586,6 +586,7 @@ struct C16 : World {
       { SutScope ss; ok = vbi_fetch_vt_page(dec, &pg, pr.first, (sel & 16) ? VBI_ANY_SUBNO : pr.second, lv[llabs(level) % 4], rows, (sel & 8) ? TRUE : FALSE); }
       budget_end();
       ctx->log("fetch ttx %x.%x level %d rows %d nav %d -> %d", pr.first, pr.second, (int)(llabs(level) % 4), rows, (sel >> 3) & 1, ok);
+      if (ok && ctx->verbose) { fprintf(stderr, "    row 24 link cells:"); for (int c2 = 0; c2 < 40; c2++) if (pg.text[24 * 41 + c2].link) fprintf(stderr, " %d:%d(%c)", c2, (int)pg.nav_index[c2], (int)pg.text[24 * 41 + c2].unicode); fprintf(stderr, "\n"); }
       if (ok) return true;
     }
     int cpg = 1 + (sel >> 1) % 8;
